@@ -159,6 +159,11 @@ func c17Loopback(c *Ctx) {
 		}
 		var lmu sync.Mutex
 		delivered := []got{}
+		type gotErr struct {
+			err  error
+			text string
+		}
+		errs := []gotErr{}
 		var connected atomic.Int64
 		release := make(chan struct{})
 		blockAt := 1 + r.Pick(4)
@@ -174,6 +179,13 @@ func c17Loopback(c *Ctx) {
 				}
 			}
 		}}
+		l.errRet = true
+		l.onErr = func(err error) {
+			// the application keeps the errors it is handed (to log them later, in one go): what they say does not change
+			lmu.Lock()
+			errs = append(errs, gotErr{err, fmt.Sprintf("%v|%+v", err, err)})
+			lmu.Unlock()
+		}
 		q := make(chan os.Signal, 1)
 		done := make(chan error, 1)
 		go func() { done <- u.Listen(l, q) }()
@@ -196,6 +208,12 @@ func c17Loopback(c *Ctx) {
 			want[seqid] = fmt.Sprintf("%x", ev)
 			order = append(order, seqid)
 			conn.Write(ev)
+			if k%4 == 2 {
+				// a datagram the listener rejects (wrong length; another one each time) between the events
+				junk := append([]byte{}, ev[:20+k%40]...)
+				junk[8], junk[9] = byte(k), byte(cy)
+				conn.Write(junk)
+			}
 			if k == blockAt+1 {
 				time.Sleep(2 * time.Millisecond) // let the read loop reach the datagram behind the busy callback
 			}
@@ -239,6 +257,14 @@ func c17Loopback(c *Ctx) {
 			}
 			if seen[seqid] > 1 {
 				c.Res.Violate("C17:event-from-another-datagram:real-transport", fmt.Sprintf("the event with sequence id %d was delivered %d times in a burst of %d (callback busy at %d): a later datagram's content delivered in an earlier one's place", seqid, seen[seqid], burst, blockAt), w, int64(cy))
+			}
+		}
+		for _, ge := range errs {
+			c.Res.Eval(1)
+			c.Res.Count("loopback:listener-errors-kept", 1)
+			if now := fmt.Sprintf("%v|%+v", ge.err, ge.err); now != ge.text {
+				c.Res.Violate("C17:error-changes-after-delivery:real-transport", fmt.Sprintf("an error handed to the listener's error callback reads differently after later datagrams arrived: %q -> %q", truncateStr(ge.text, 300), truncateStr(now, 300)), map[string]any{"cycle": cy}, int64(cy))
+				break
 			}
 		}
 		if !dropped && len(delivered) >= burst {
